@@ -407,7 +407,23 @@ fn format(opt: opt::Opt) -> Result<i32> {
     let walker = walker_builder.build();
     let mut seen_files = HashSet::new();
 
-    for result in walker {
+    // An error of the walk itself (a configuration or ignore file which cannot be read) ends the walk, but the files
+    // already handed to the workers are completed before it is returned: otherwise the process would exit while they
+    // are still being written, and which files end up formatted would depend on timing
+    let mut walk_error = None;
+    macro_rules! try_walk {
+        ($label:lifetime, $value:expr) => {
+            match $value {
+                Ok(value) => value,
+                Err(err) => {
+                    walk_error = Some(err);
+                    break $label;
+                }
+            }
+        };
+    }
+
+    'walk: for result in walker {
         match result {
             Ok(entry) => {
                 if entry.is_stdin() {
@@ -417,12 +433,15 @@ fn format(opt: opt::Opt) -> Result<i32> {
                     let should_skip_format = match &opt.stdin_filepath {
                         Some(path) => {
                             opt.respect_ignores
-                                && path_is_stylua_ignored(path, opt.search_parent_directories)?
+                                && try_walk!(
+                                    'walk,
+                                    path_is_stylua_ignored(path, opt.search_parent_directories)
+                                )
                         }
                         None => false,
                     };
 
-                    let config = config_resolver.load_configuration_for_stdin()?;
+                    let config = try_walk!('walk, config_resolver.load_configuration_for_stdin());
 
                     pool.execute(move || {
                         let mut buf = String::new();
@@ -477,7 +496,10 @@ fn format(opt: opt::Opt) -> Result<i32> {
                         // we should check .styluaignore
                         if is_explicitly_provided(opt.as_ref(), &path)
                             && should_respect_ignores(opt.as_ref(), &path)
-                            && path_is_stylua_ignored(&path, opt.search_parent_directories)?
+                            && try_walk!(
+                                'walk,
+                                path_is_stylua_ignored(&path, opt.search_parent_directories)
+                            )
                         {
                             continue;
                         }
@@ -491,7 +513,7 @@ fn format(opt: opt::Opt) -> Result<i32> {
                             continue;
                         }
 
-                        let config = config_resolver.load_configuration(&path)?;
+                        let config = try_walk!('walk, config_resolver.load_configuration(&path));
 
                         let tx = tx.clone();
                         pool.execute(move || {
@@ -528,6 +550,10 @@ fn format(opt: opt::Opt) -> Result<i32> {
 
     drop(tx);
     pool.join();
+
+    if let Some(err) = walk_error {
+        return Err(err);
+    }
 
     // Output summary
 
